@@ -98,3 +98,42 @@ package mp4
 // from "hdr.Size == expectedSize(sampleCount)" and the 1024-sample guard.
 //@ func (*TrunBox).expectedSize
 //@   inline
+
+// ---------------------------------------------------------------- box encoder schema (S3 of DESIGN.md, property C02)
+// Whenever EncodeSW reports success (nil result, no accumulated writer error), it has advanced the writer by exactly Size()
+// bytes. Size() in the contract is the box's own Size method: inlined when the dynamic type is known, otherwise the abstract
+// pure method AM!Size(box, epoch). Nothing but the writer is assigned, so Size() is the same before and after.
+
+//@ absmethod Size GetChildren Type
+
+//@ spec rec sizeSum(bs []Box, n int) uint64 = ite(n <= 0, uint64(0), sizeSum(bs, n-1) + bs[n-1].Size())
+
+//@ func EncodeHeaderSW
+//@   inline
+
+// adv(sw, d): if the writer has no accumulated error now, it had none at entry and has advanced by exactly d bytes since entry.
+//@ pred adv(sw bits.SliceWriter, d int) = sw.(*bits.FixedSliceWriter).accError == nil ==> old(sw.(*bits.FixedSliceWriter).accError) == nil && sw.(*bits.FixedSliceWriter).off == old(sw.(*bits.FixedSliceWriter).off) + d
+
+// boxOK(b): the representation invariant of a box as produced by the decoders and the public constructors, defined per box
+// type by "pred boxOK@Type" (true where none is given); for a box of statically unknown type it is abstract.
+//@ abspred boxOK
+
+//@ schema boxEncodeSW method ^EncodeSW$ except ^(Fragment|MediaSegment|File|InitSegment|\w+Descriptor)\.
+//@   requires swOKi(p1) && boxOK(p0)
+//@   ensures swOKi(p1)
+//@   ensures[C02] result == nil ==> adv(p1, int(p0.Size()))
+//@   assigns p1.(*bits.FixedSliceWriter).off, p1.(*bits.FixedSliceWriter).accError, p1.(*bits.FixedSliceWriter).n, p1.(*bits.FixedSliceWriter).v, p1.(*bits.FixedSliceWriter).buf[:]
+
+//@ func containerSize
+//@   ensures result == 8 + sizeSum(children, len(children))
+//@   assigns nothing
+//@   loop 1 invariant contentSize == sizeSum(children, idx(1))
+
+//@ func EncodeContainerSW
+//@   requires c.Size() == 8 + sizeSum(c.GetChildren(), len(c.GetChildren()))
+//@   requires kidsOK(c.GetChildren())
+//@   requires len(c.Type()) == 4
+//@   ensures[C02] result == nil ==> adv(sw, int(c.Size()))
+//@   assigns sw.(*bits.FixedSliceWriter).off, sw.(*bits.FixedSliceWriter).accError, sw.(*bits.FixedSliceWriter).n, sw.(*bits.FixedSliceWriter).v, sw.(*bits.FixedSliceWriter).buf[:]
+//@   loop 1 invariant idx(1) <= len(c.GetChildren())
+//@   loop 1 invariant adv(sw, 8 + int(sizeSum(c.GetChildren(), idx(1))))
